@@ -95,6 +95,8 @@ class Ctx:
             view=None, label=None, trace_run=False):
         """Runs TLC on spec/<module>.tla with a generated config.  Returns a dict of statistics.
         Lines printed as <<"CASE", json>> are written (deduplicated) to emit_to as ndjson."""
+        if self.tier == "thorough":
+            timeout = max(timeout, 5400)          # the thorough tier explores larger configurations (and may share the machine)
         with self.lock:
             self.nseq += 1
             seq = self.nseq
